@@ -86,16 +86,19 @@ def run(tier):
             lines = [ln for ln in text.split('\n') if ln.startswith('(ROOT')]
             ln = rng.choice(lines)
             if len(ln) > 12:
-                cut = rng.randint(8, len(ln) - 1)
-                trunc = ln[:cut].rstrip(' ')
-                if trunc.count('(') > trunc.count(')'):
-                    n_trunc += 1
-                    raised = False
-                    try:
-                        list(read_ptb(rf.write_tmp(trunc + '\n', '.ptb')))
-                    except Exception:
-                        raised = True
-                    add({'e': 'must_raise', 'p': PROP, 'fmt': 'ptb', 'what': 'incomplete_line_not_rejected', 'raised': raised}, dict(base, fmt='ptb', text=trunc[:400]))
+                # truncation points: right after a complete sub-tree (after a ')'), inside a word / category, and random ones
+                closes = [i + 1 for i, ch in enumerate(ln[:-1]) if ch == ')' and i > 8]
+                cuts = set(rng.sample(closes, min(3, len(closes))) + [rng.randint(8, len(ln) - 1) for _ in range(3)])
+                for cut in sorted(cuts):
+                    trunc = ln[:cut].rstrip(' ')
+                    if trunc.count('(') > trunc.count(')'):
+                        n_trunc += 1
+                        raised = False
+                        try:
+                            list(read_ptb(rf.write_tmp(trunc + '\n', '.ptb')))
+                        except Exception:
+                            raised = True
+                        add({'e': 'must_raise', 'p': PROP, 'fmt': 'ptb', 'what': 'incomplete_line_not_rejected', 'raised': raised}, dict(base, fmt='ptb', text=trunc[:400]))
         # ---- Japanese bank format over the Japanese lexicon: tokens without backslash and without / { }
         rf.set_lang('ja')
         b = trees.make_batch(rng, 'ja', awkward=0.4, exclude='\\/{}')
